@@ -126,7 +126,8 @@ def _has_invalid_pin_cite(
 
     # if full cite has no page (such as a statute), we don't know what to
     # check, so assume we're fine
-    if not (full_cite.groups.get("page") or "").isdigit():
+    # (isdecimal, not isdigit: int() below does not accept "²" or "①")
+    if not (full_cite.groups.get("page") or "").isdecimal():
         return False
 
     # parse full cite page
